@@ -58,8 +58,7 @@ def entries(pym, seed, thorough=False):
         return pym.DomainDefinition(int(rng.integers(1, 4)), int(rng.integers(1, 4)), int(rng.integers(1, 3)),
                                     *[float(rng.choice([0.5, 1.0, 1.5, 2.0])) for _ in range(3)])
 
-    reps = 3 if thorough else 1
-    for _ in range(reps):
+    def one_rep():
         # ------------------------------------------------------------------ Scaling
         for kw in (dict(scaling=7.0), dict(scaling=3.0, minval=0.7), dict(scaling=2.0, maxval=1.3)):
             add('Scaling', kw, lambda si, so, kw=kw: pym.Scaling(si, so, **kw), [float(rng.random() + 0.5)])
@@ -68,9 +67,9 @@ def entries(pym, seed, thorough=False):
         for cls, pname, vals in (('PNorm', 'p', (2, 4.5, -3.0, 1)), ('KSFunction', 'rho', (1.0, 6.0, -4.0)),
                                  ('SoftMinMax', 'alpha', (1.0, 5.0, -3.0))):
             for v in vals:
-                n = int(rng.integers(1, 9))
-                x = rnd(n) * 2
                 for variant in ('plain', 'scaled', 'active', 'damped'):
+                    n = int(rng.integers(1, 9)) if variant != 'active' else int(rng.integers(6, 12))
+                    x = rnd(n) * 2
                     def mk(si, so, cls=cls, pname=pname, v=v, variant=variant):
                         kw = {pname: v}
                         if variant in ('scaled', 'damped'):
@@ -131,7 +130,7 @@ def entries(pym, seed, thorough=False):
                 if rng.random() < 0.5:
                     kw.update(xi_0=0.4, p=10.0, eps=1e-3)
                 add('OverhangFilter', dict(dom=(d.nelx, d.nely, d.nelz), **kw),
-                    lambda si, so, d=d, kw=kw: pym.OverhangFilter(si, so, d, **kw), [rng.random(d.nel) * 0.9 + 0.05], tol=2e-5)
+                    lambda si, so, d=d, kw=kw: pym.OverhangFilter(si, so, d, **kw), [rng.random(d.nel) * 0.9 + 0.05], tol=3e-4, h=2e-4)
         # ------------------------------------------------------------------ assembly and element operators
         for dim in (2, 3):
             d = dom(dim)
@@ -246,6 +245,9 @@ def entries(pym, seed, thorough=False):
         Ag = Qo @ np.diag(np.arange(1, ne_ + 1) * 1.3) @ np.linalg.inv(Qo) + 0.2 * np.triu(rng.standard_normal((ne_, ne_)), 1)
         add('EigenSolve', dict(n=ne_, kind='dense general (real spectrum)'), lambda si, so: pym.EigenSolve(si, so), [np.triu(Ag) + np.diag(np.arange(ne_) * 1.1)], nout=2,
             dirs=lambda r: [np.triu(r.standard_normal((ne_, ne_)))], tol=2e-5)
+    reps = 3 if thorough else 1
+    for _ in range(reps):
+        one_rep()
     return E
 
 
